@@ -108,6 +108,22 @@ PROPS["C19"] = dict(
     thorough=dict(shards=16, timeout=1800),
 )
 
+PROPS["C01"] = dict(
+    pkg="c01", level="exploration", design_ref="DESIGN.md section 3, C01",
+    technique="enumerated type x position matrix + rapid random type trees (reflect-built) with boundary-biased value generators; normalising round-trip oracle in neutral-node space",
+    level_text=("Round-trip property over a generated type universe: every leaf type (scalars, named scalars, big numbers, time, uuid, list, interface{}, 25 named "
+                "structs) is placed in every container position (pointers, slices, arrays, maps, anonymous struct fields) and all 15x15 specialised map types are "
+                "enumerated, so each dispatch-table cell is executed with boundary-biased generated values; rapid adds random type trees of depth 3-4. The oracle "
+                "maps original and decoded value into an independent neutral node space and grants exactly the normalisations of the statement."),
+    level_note="Exploration: finite trees only (cycles are C02); decoder settings for interface{} destinations are the defaults here and varied in C06; the comparison ignores fields the library documents as not serialized.",
+    rule=("matrix: leaf x position cells enumerated, 6 (quick) / 60 (thorough) rapid-drawn values per cell x {simple, reference} x 4 entry points; random-types: rapid type trees. "
+          "Non-trivial = the value has a non-zero leaf and (nesting depth >= 1 or a boundary-length leaf or a non-struct top level). Distinct by (type, mode, entry, value text)."),
+    assumptions=["time.Local is pinned to a fixed +8h zone for the run", "struct types never have two fields with the same alias (documented panic)",
+                 "interface{}-keyed maps only get keys that stay distinct on the wire"],
+    quick=dict(shards=4, timeout=600),
+    thorough=dict(shards=16, timeout=2400),
+)
+
 # properties not claimed yet (kept current as checks land)
 _ALL = ["C%02d" % i for i in range(1, 21)]
 NOT_APPLICABLE = [dict(property_id=p, reason="check not built yet in this revision (planned in DESIGN.md section 3); not a limit of the technique")
